@@ -359,7 +359,7 @@ def generate(tier, seed):
     #      carries the planted axis: if it passes the verified checker c11.check_axis, a False answer of the
     #      implementation is a violation whatever the mirror says.
     from . import c03 as C03
-    npqv = 10000 if not thorough else 60000
+    npqv = 8000 if not thorough else 40000
     for i in range(npqv):
         m = rng.randint(8, 10)
         alts = rng.sample(range(0, rng.choice([m, 40, 1000])), m)
